@@ -32,7 +32,7 @@ SCALAR_POOL = [
     ['str', ''], ['str', 'a'], ['str', 'ab'], ['str', '_is_task'], ['str', 'é中'], ['str', '\x00'],
     ['str', 'a.b/c\\d'], ['str', '\ud800'], ['str', 'True'], ['str', '1'],
     ['enum', 'lv_universe', 'Color', 'RED'], ['enum', 'lv_universe', 'Color', 'GREEN'],
-    ['enum', 'lv_universe', 'Shade', 'RED'], ['enum', 'lv_universe2', 'Color', 'RED'],
+    ['enum', 'lv_universe', 'Shade', 'RED'], ['enum', 'lv_universe2', 'Color', 'RED'], ['enum', 'lv_universe', 'Heavy', 'BIG'],
     ['str', 'r\udce9s'], ['str', 'r\udce8s'], ['str', 'r?s'], ['str', 'adam'],
     ['enum', 'lv_pkg.sub.defs', 'Color', 'RED'], ['enum', 'lv_pkg.other', 'Color', 'RED'],
 ]
@@ -231,6 +231,7 @@ def g_opt(x):
 ENV = ('{| task_classes := ' + g_list([f'({g_s(m + "." + n)}, {g_list([g_s(f) for f in fs])})' for m, n, fs in TASK_TYPES]) +
        '; enum_classes := ' + g_list([f'({g_s("lv_universe.Color")}, {g_list([g_s("RED"), g_s("GREEN")])})',
                                       f'({g_s("lv_universe.Shade")}, {g_list([g_s("RED"), g_s("DARK")])})',
+                                      f'({g_s("lv_universe.Heavy")}, {g_list([g_s("BIG"), g_s("SMALL")])})',
                                       f'({g_s("lv_universe2.Color")}, {g_list([g_s("RED"), g_s("GREEN")])})',
                                       f'({g_s("lv_pkg.sub.defs.Color")}, {g_list([g_s("RED"), g_s("GREEN")])})',
                                       f'({g_s("lv_pkg.other.Color")}, {g_list([g_s("RED"), g_s("GREEN")])})',
